@@ -63,6 +63,7 @@ func c04Bounds() map[string]c04Bound {
 	m["handle"] = c04Bound{4200, 1 << 21} // + reply path
 	m["recv"] = c04Bound{8, 1 << 20}
 	m["fragseq"] = c04Bound{16, 1 << 16}
+	m["hello"] = c04Bound{64, 1 << 21}
 	m["resolve"] = c04Bound{256, 1 << 16}
 	m["procmulti"] = c04Bound{64, 1 << 20}
 	m["json"] = c04Bound{64, 1 << 21}
@@ -81,7 +82,7 @@ var c04Entry = map[string]string{
 	"r.systemio": "result.SystemIO", "r.script": "result.Script",
 	"s.bytes": "data.reader.Bytes", "s.strlist": "data.reader.ReadStringList",
 	"dns": "transform.DNS.Read", "b64": "transform.B64.Read", "cbk": "crypto.CBK.Read",
-	"wire": "com.Packet.Unmarshal", "rp": "c2.readPacket", "handle": "c2.handle", "recv": "c2.receive", "fragseq": "c2.receive(fragment sequence)",
+	"wire": "com.Packet.Unmarshal", "rp": "c2.readPacket", "handle": "c2.handle", "recv": "c2.receive", "fragseq": "c2.receive(fragment sequence)", "hello": "c2.Listener.talk(key material)",
 	"resolve": "c2.conn.resolve", "procmulti": "c2.conn.processMultiple", "json": "c2.Session.JSON",
 	"hang": "c2.readDeviceInfo", "hsw": "c2.handle", "e2e": "e2e", "e2eraw": "c2.Listener(e2e)",
 }
@@ -602,6 +603,61 @@ func c04GenDNS(r *Rng) []byte {
 	return c04ChildEncode("dns", p)
 }
 
+// c04GenDNSHostile builds a DNS-shaped message by hand: header counts q/c/t in 0..2, well-formed
+// names, and record length fields that may lie about what follows.
+func c04GenDNSHostile(r *Rng) []byte {
+	q, cn, t := r.Intn(3), r.Intn(3), r.Intn(3)
+	b := make([]byte, 12)
+	b[0], b[1] = byte(r.U64()), byte(r.U64())
+	b[5], b[7], b[11] = byte(q), byte(cn), byte(t)
+	if r.Chance(5) {
+		b[4+2*r.Intn(4)] = byte(1 + r.Intn(255))
+	}
+	lie := func(rd int) int {
+		switch r.Intn(6) {
+		case 0:
+			return rd + 1 + r.Intn(300)
+		case 1:
+			return 0xFFFF
+		case 2:
+			if rd > 0 {
+				return rd - 1
+			}
+		}
+		return rd
+	}
+	for i := 0; i < q; i++ {
+		for l := r.Intn(3); l > 0; l-- {
+			n := 1 + r.Intn(6)
+			if r.Chance(5) {
+				n = 62 + r.Intn(3)
+			}
+			b = append(b, byte(n))
+			b = append(b, r.Bytes(n)...)
+		}
+		b = append(b, 0, 0, 1, 0, 1)
+	}
+	for i := 0; i < cn; i++ {
+		b = append(b, r.Bytes(10)...)
+		rd := r.Intn(8)
+		a := lie(rd)
+		b = append(b, byte(a>>8), byte(a))
+		b = append(b, r.Bytes(rd)...)
+	}
+	for i := 0; i < t; i++ {
+		h := []byte{0xC0, 0x0C, 0, 0xA, 0, 1, 0, 0, 0, 0}
+		if r.Chance(8) {
+			h[r.Intn(6)] ^= byte(1 + r.Intn(255))
+		}
+		b = append(b, h...)
+		rd := r.Intn(20)
+		a := lie(rd)
+		b = append(b, byte(a>>8), byte(a))
+		b = append(b, r.Bytes(rd)...)
+	}
+	return b
+}
+
 // ---- the run ------------------------------------------------------------------------------------
 
 func runC04(c *Ctx) {
@@ -808,6 +864,38 @@ func runC04(c *Ctx) {
 		c.Eval(true, "fragseq"+strings.Join(toks, " "))
 	})
 	flush()
+	// 4c. hostile key material at registration and re-key (real Listener.talk, real ECDH)
+	c.Cases("hello", c.N(60, 1200), func(r *Rng, i int) {
+		var kp data.KeyPair
+		kp.Fill()
+		k := append([]byte(nil), kp.Public[:]...)
+		kind := i % 8
+		switch kind {
+		case 0: // valid
+		case 1: // one bit flipped (not on the curve)
+			k[1+r.Intn(len(k)-1)] ^= 1 << uint(r.Intn(8))
+		case 2: // uncompressed-point marker + filler
+			k = append([]byte{4}, r.Bytes(len(k)-1)...)
+		case 3:
+			k = append([]byte{4}, make([]byte, len(k)-1)...)
+		case 4: // coordinates at / above the field size
+			k = append([]byte{4}, bytes.Repeat([]byte{0xFF}, len(k)-1)...)
+		case 5: // other markers
+			k[0] = []byte{0, 2, 3, 5, 0xFF}[r.Intn(5)]
+		case 6: // short
+			k = k[:r.Intn(len(k))]
+		case 7: // long / random
+			k = r.Bytes(len(k) + r.Intn(40))
+		}
+		mode := "reg"
+		if r.Bool() {
+			mode = "rekey"
+		}
+		add(fmt.Sprintf("hello %s %s", mode, hx(k)), 200+len(k), false)
+		c.Count(fmt.Sprintf("hello:%s:kind%d", mode, kind))
+		c.Eval(true, "hello"+mode+hx(k))
+	})
+	flush()
 	c.Cases("proxy", c.N(150, 2000), func(r *Rng, i int) {
 		var w data.Chunk
 		f := r.Bool()
@@ -858,6 +946,20 @@ func runC04(c *Ctx) {
 		add("dns "+hx(b), len(b), true)
 		c.Count("mut:" + m)
 		c.Eval(true, "dns"+hx(b))
+	})
+	flush()
+	c.Cases("dnshdr", c.N(800, 12000), func(r *Rng, i int) {
+		// synthesised messages: every combination of small question / answer / additional counts with
+		// announced record lengths below, at and beyond what follows (the encoder never writes these)
+		b := c04GenDNSHostile(r)
+		if r.Chance(20) {
+			b = append(b, c04GenDNSHostile(r)...)
+		}
+		if r.Chance(15) && len(b) > 0 {
+			b = b[:r.Intn(len(b)+1)]
+		}
+		add("dns "+hx(b), len(b), true)
+		c.Eval(true, "dnshdr"+hx(b))
 	})
 	flush()
 	c.Cases("wire", c.N(400, 6000), func(r *Rng, i int) {
